@@ -5,6 +5,7 @@
 package asset
 
 import (
+	"sync"
 	"time"
 
 	"github.com/cinar/indicator/v2/helper"
@@ -13,6 +14,9 @@ import (
 // InMemoryRepository stores and retrieves asset snapshots using
 // an in memory storage.
 type InMemoryRepository struct {
+	// mu guards the storage.
+	mu sync.RWMutex
+
 	// storage is the in memory storage for assets.
 	storage map[string][]*Snapshot
 }
@@ -26,6 +30,9 @@ func NewInMemoryRepository() *InMemoryRepository {
 
 // Assets returns the names of all assets in the repository.
 func (r *InMemoryRepository) Assets() ([]string, error) {
+	r.mu.RLock()
+	defer r.mu.RUnlock()
+
 	assets := make([]string, 0, len(r.storage))
 	for name := range r.storage {
 		assets = append(assets, name)
@@ -36,7 +43,10 @@ func (r *InMemoryRepository) Assets() ([]string, error) {
 
 // Get attempts to return a channel of snapshots for the asset with the given name.
 func (r *InMemoryRepository) Get(name string) (<-chan *Snapshot, error) {
+	r.mu.RLock()
 	snapshots, ok := r.storage[name]
+	r.mu.RUnlock()
+
 	if !ok {
 		return nil, ErrRepositoryAssetNotFound
 	}
@@ -77,13 +87,12 @@ func (r *InMemoryRepository) LastDate(name string) (time.Time, error) {
 
 // Append adds the given snapshows to the asset with the given name.
 func (r *InMemoryRepository) Append(name string, snapshots <-chan *Snapshot) error {
-	combined := r.storage[name]
+	appended := helper.ChanToSlice(snapshots)
 
-	for snapshot := range snapshots {
-		combined = append(combined, snapshot)
-	}
+	r.mu.Lock()
+	defer r.mu.Unlock()
 
-	r.storage[name] = combined
+	r.storage[name] = append(r.storage[name], appended...)
 
 	return nil
 }
